@@ -86,7 +86,7 @@ ReqViol(st, e, staged1) ==
           THEN {V("C16", "UpdateOfUnmanagedStatement", IF Known(st.expect, n) THEN Pol(st.expect, n).why ELSE "unknown name", e)}
           ELSE
             (IF Pol(st.expect, n).eval = "skip" THEN {}
-             ELSE IF Pol(st.expect, n).eval # "ok"
+             ELSE IF Pol(st.expect, n).eval \notin {"ok", "either"}
              THEN {V("C03", "UpdateOfPolicyWhoseDataCouldNotBeObtained", "eval=" \o Pol(st.expect, n).eval, e)}
              ELSE
                LET P == Get(LoadAct(st.staged, e.update, e.action), n)      \* the update on its own, acknowledged or not
@@ -162,12 +162,30 @@ EndViol(st, e) ==
               THEN {V(IF exp.prop \in {"C15", "C11", "C17"} THEN exp.prop ELSE "C01", "InstalledFilterDiffersFromEvaluatedSet",
                       IF AcceptAtoms(P, "inet", d) # ToSet(x.v4) THEN "inet" ELSE "inet6/other", e)} ELSE {})
              \cup (IF ~Readable(P) THEN {V("C01", "InstalledStateNotReadableByTheAgent", "", e)} ELSE {}))
+     ELSE IF x.eval = "either"
+     THEN (* C17: its evaluation may have met the transient error; if it is installed it must be right (an error   *)
+          (* on a route query is sunk: then one family may be missing)                                              *)
+          (IF n \notin names THEN {}
+           ELSE LET P == Get(st.eph, n)
+                    a4 == AcceptAtoms(P, "inet", d)  a6 == AcceptAtoms(P, "inet6", d)
+                    whole == a4 = ToSet(x.v4) /\ a6 = ToSet(x.v6)
+                    partial == Has(x, "partial_ok") /\ x.partial_ok /\ a4 \in {ToSet(x.v4), {}} /\ a6 \in {ToSet(x.v6), {}}
+                IN IF (whole \/ partial) /\ ~AcceptsOutsideUniverse(P, d) /\ ~FailOpen(P) THEN {}
+                   ELSE {V(exp.prop, "InstalledFilterDiffersFromEvaluatedSet", "policy sharing its expression with others", e)})
      ELSE IF x.marked /\ x.eval \notin {"ok", "skip"}
      THEN (* C03: stays exactly as it was *)
           (IF (n \in names) # (n \in Names(st.start)) \/ (n \in names /\ Get(st.eph, n) # Get(st.start, n))
            THEN {V("C03", "PolicyChangedAlthoughItsDataCouldNotBeObtained", "eval=" \o x.eval, e)} ELSE {})
      ELSE {}
      : n \in (IF Has(exp, "policies") THEN DOMAIN exp.policies ELSE {})}
+  \cup (IF Has(exp, "max_transient_failures") THEN
+          LET eithers == {n \in DOMAIN exp.policies : exp.policies[n].eval = "either"}
+              bad == {n \in eithers : n \notin names \/ AcceptAtoms(Get(st.eph, n), "inet", d) # ToSet(Pol(exp, n).v4)
+                                                      \/ AcceptAtoms(Get(st.eph, n), "inet6", d) # ToSet(Pol(exp, n).v6)}
+          IN IF Cardinality(bad) > exp.max_transient_failures
+             THEN {V(exp.prop, "MoreEvaluationsAffectedThanErrorsInjected",
+                     "policies with the same expression, one transient IRR error", e)} ELSE {}
+        ELSE {})
   \cup {V("C01", "OrphanPolicyLeftInstalled", "", e) : n \in {n \in names : ~Known(exp, n) \/ ~Pol(exp, n).marked}}
   \cup (IF exp.c16 THEN
           {V("C16", "ManagedStatementNotSelected", Pol(exp, n).why, e) : n \in SelSet(exp) \ st.updated}
@@ -226,6 +244,7 @@ LineViol(st, st1, e) ==
     [] e.ev = "run_end" -> EndViol(st, e) \cup TwinViol(st, e)
     [] e.ev = "daemon_end" ->
          (IF e.sessions_seen < e.sessions_wanted THEN {V(PropOf(st), "DaemonStoppedRunning", "fewer runs than periods elapsed", e)} ELSE {})
+         \cup (IF e.exit_code # 0 THEN {V(PropOf(st), "DaemonDidNotExitCleanlyOnSigterm", "exit status " \o ToString(e.exit_code), e)} ELSE {})
          (* a panic that is contained (an unsupported construct in one policy) prints a message and nothing else *)
          \cup (IF e.panic_at # "" /\ e.exit_code # 0 THEN {V(PropOf(st), "DaemonPanicked", "", e)} ELSE {})
     [] OTHER -> {}
